@@ -337,6 +337,75 @@ Fixpoint run (bk : bkind) (st : state) (evs : list ev) : state * option err :=
       end
   end.
 
+(* ---- the results log ------------------------------------------------------------------------------ *)
+(* Tuner._update_running_trials, first loop, per result that is not skipped: scheduler.on_trial_result
+   (the decision), then every callback's on_trial_result. StoreResultsCallback.on_trial_result builds a
+   row from the result (+ trial id, decision, status, config, time stamps) and the extra columns of its
+   optional ExtraResultsComposer -- whose answer may be None ("nothing to append") -- and appends the row
+   in every case. [comp] = the composer's answers, one per call (None also stands for "no composer"). *)
+Definition row := (nat * Z * list Z)%type.            (* trial id, payload of the result, extra columns *)
+Definition row_key (r : row) : nat * Z := fst r.
+Definition row_extra (r : row) : list Z := snd r.
+Definition ans_cols (a : option (list Z)) : list Z := match a with Some e => e | None => [] end.
+Definition store_row (i : nat) (v : Z) (ans : option (list Z)) : row := (i, v, ans_cols ans).
+Definition next_ans (comp : list (option (list Z))) : option (list Z) * list (option (list Z)) :=
+  match comp with [] => (None, []) | a :: r => (a, r) end.
+
+Fixpoint log_loop (batch : list (nat * rep)) (decs : list (dec * nat)) (comp : list (option (list Z)))
+         (done : list nat) (rows : list row) : list row * list (option (list Z)) :=
+  match batch with
+  | [] => (rows, comp)
+  | (i, r) :: rest =>
+      if mem_nat i done then log_loop rest decs comp done rows
+      else
+        let '(d, _, decs') := next_dec decs in
+        let '(ans, comp') := next_ans comp in
+        let rows1 := rows ++ [store_row i (snd r) ans] in
+        match d with
+        | CONT => log_loop rest decs' comp' done rows1
+        | _ => log_loop rest decs' comp' (i :: done) rows1
+        end
+  end.
+
+Definition poll_log (bk : bkind) (st : state) (ids : list nat) (decs : list (dec * nat))
+           (comp : list (option (list Z))) (rows : list row) : list row * list (option (list Z)) :=
+  if ids_ok (trials st) ids then log_loop (snd (fetch bk ids (trials st))) decs comp [] rows
+  else (rows, comp).
+
+(* the results log after a whole run *)
+Fixpoint run_log (bk : bkind) (st : state) (evs : list ev) (comp : list (option (list Z)))
+         (rows : list row) : list row :=
+  match evs with
+  | [] => rows
+  | e :: r =>
+      let '(rows1, comp1) := match e with
+                             | Poll ids decs => poll_log bk st ids decs comp rows
+                             | _ => (rows, comp)
+                             end in
+      match step bk st e with
+      | (st1, None) => run_log bk st1 r comp1 rows1
+      | (_, Some _) => rows1
+      end
+  end.
+
+(* ---- a worker that survives pause_trial -------------------------------------------------------------- *)
+(* The model's pause/stop assume that the worker is gone when pause_trial / stop_trial return (after its
+   [late] further reports). [ZombieWrite i reps]: the old process of trial i is still alive and appends
+   reps to std.out -- e.g. after the trial was resumed (a worker that handles SIGTERM gracefully). *)
+Inductive zev := ZE (e : ev) | ZombieWrite (i : nat) (reps : list rep).
+Definition zombie_write (reps : list rep) (t : tr) : tr :=
+  mkTr (log t ++ reps) (todo t) (proc t) (mark t) (seen t) (cstat t) (nrf t) (cur t) (dcur t) (base t) (fin t) (past t).
+Definition zstep (st : state) (z : zev) : state * option err :=
+  match z with
+  | ZE e => step Generic st e
+  | ZombieWrite i reps => (mkSt (upd i (zombie_write reps) (trials st)) (out st) (polls st), None)
+  end.
+Fixpoint zrun (st : state) (zs : list zev) : state * option err :=
+  match zs with
+  | [] => (st, None)
+  | z :: r => match zstep st z with (st1, None) => zrun st1 r | (st1, Some x) => (st1, Some x) end
+  end.
+
 (* ---- the two reads of LocalBackend._all_trial_results ------------------------------------------- *)
 (* For every polled trial the backend reads the STATUS first (_read_status: marker files, process
    state) and the TEXT second (_retrieve_metrics: std.out); the worker may act in between. *)
